@@ -7,14 +7,17 @@ PROPS = {
         "runs": {
             "quick": [{"harness": "polytree", "args": ["--scope", "S1", "--nmax", 4, "--treeD", 1]},
                       {"harness": "polytree", "args": ["--scope", "rings", "--rings", 6]},
-                      {"harness": "polytree", "args": ["--scope", "rect", "--g", 4, "--nsub", 2]}],
+                      {"harness": "polytree", "args": ["--scope", "rect", "--g", 4, "--nsub", 2]},
+                      {"harness": "polytree", "args": ["--scope", "cells", "--w", 6, "--h", 6]}],
             "thorough": [{"harness": "polytree", "args": ["--scope", "S1", "--nmax", 5, "--treeD", 1]},
                          {"harness": "polytree", "args": ["--scope", "S2", "--nmax", 4]},
                          {"harness": "polytree", "args": ["--scope", "rings", "--rings", 8, "--treeD", 1]},
-                         {"harness": "polytree", "args": ["--scope", "rect", "--g", 4, "--nsub", 3]}],
+                         {"harness": "polytree", "args": ["--scope", "rect", "--g", 4, "--nsub", 3]},
+                         {"harness": "polytree", "args": ["--scope", "cells", "--w", 7, "--h", 6]},
+                         {"harness": "polytree", "args": ["--scope", "cells", "--w", 6, "--h", 7]}],
         },
         "rule": "general-position scopes of C01 (also through ClipperD/PolyTreeD at precisions 0 and 2), every presence/orientation/subject-clip assignment of up to 8 concentric rings, and every set of 2-3 subject rectangles + 1 clip rectangle "
-                "on a 4-line lattice of spacing 4; x 4 clip types x 4 fill rules; non-trivial = the tree has depth >= 2 (at least one hole)",
+                "on a 4-line lattice of spacing 4; a ring of cells round a 6x6 (thorough 7x6, 6x7) grid plus every subset of the interior cells in four rectangle decompositions (Union/NonZero, Xor with the interior, Difference/EvenOdd from the full square); x 4 clip types x 4 fill rules; non-trivial = the tree has depth >= 2 (at least one hole)",
         "level_text": "Every input of the scopes is executed into Paths and into a PolyTree on the real library; flattened tree == paths (exact canonical equality), every child inside its parent and outside its siblings (exact point-in-polygon), orientation alternates with level, tree area == paths area.",
         "assumptions": ["scopes bounded as stated", "containment is judged at an edge midpoint of the child that is not on the other polygon's boundary"],
     },
